@@ -655,18 +655,30 @@ def dt3(ctx, R):
         f = prog.func(q)
         out = set()
         for g in _referenced_region(prog, f):
+            exprs = [g.node]
+            # module-level constants the code refers to:  _DATETIME_DTYPE = np.dtype('datetime64[us]')
             for n in ast.walk(g.node):
-                if isinstance(n, ast.Constant) and isinstance(n.value, str):
-                    try:
-                        out.add(np.dtype(n.value))
-                    except Exception:
-                        pass
-                if isinstance(n, ast.Name) and n.id == "object":
-                    out.add(np.dtype("O"))
+                if isinstance(n, ast.Name) and n.id in g.module.assigns:
+                    exprs.append(g.module.assigns[n.id])
+            for e in exprs:
+                for n in ast.walk(e):
+                    if isinstance(n, ast.Constant) and isinstance(n.value, str):
+                        try:
+                            out.add(np.dtype(n.value))
+                        except Exception:
+                            pass
+                    if isinstance(n, ast.Name) and n.id == "object":
+                        out.add(np.dtype("O"))
         return f, out
     tr, consts = dtype_consts("channel_data.TimestampDataReceiver.__init__")
-    R.check(np.dtype("M8[us]") in consts and not any(c.kind == "M" and c != np.dtype("M8[us]") for c in consts), "channel_data.TimestampDataReceiver::datetime64[us] storage", tr.where(),
-            "non-raw timestamps are stored as datetime64[us]", "timestamp receiver does not allocate datetime64[us] (dtypes named: %s)" % sorted(str(c) for c in consts))
+    key = "channel_data.TimestampDataReceiver::datetime64[us] storage"
+    wrong = [c for c in consts if c.kind == "M" and c != np.dtype("M8[us]")]
+    if wrong:
+        R.violation(key, tr.where(), "timestamp receiver allocates %s, not datetime64[us] (dtypes named: %s)" % (wrong[0], sorted(str(c) for c in consts)))
+    elif np.dtype("M8[us]") in consts:
+        R.ok(key, tr.where(), "non-raw timestamps are stored as datetime64[us]")
+    else:
+        R.undecided(key, tr.where(), "no datetime dtype is named in the receiver's allocation code (dtypes named: %s)" % sorted(str(c) for c in consts))
     lr, consts = dtype_consts("channel_data.ListDataReceiver.__init__")
     R.check(np.dtype("O") in consts, "channel_data.ListDataReceiver::object storage", lr.where(),
             "string data becomes an object array", "list receiver does not produce object arrays for strings")
